@@ -1,4 +1,5 @@
 import MesaModel.Model.Signals
+import MesaModel.Model.SignalsSrc
 import MesaModel.Model.Computed
 /-!
 Line-protocol driver for the signals group (C16, C17, C18-signals).  One output line per input line.
@@ -11,6 +12,9 @@ Line-protocol driver for the signals group (C16, C17, C18-signals).  One output 
       set n v | lassign n vs | lset n i v | lsetslice n a b vs | ldel n i | ldelslice n a b
       lsetslicex n A B C vs | ldelslicex n A B C      (`slice(A, B, C)`, each an int or N = None)
       linsert n i v | lappend n v | lpop n i | lremove n v | lextend n vs | liadd n vs | lreverse n | lclear n
+      lextendsrc n vs k | liaddsrc n vs k        extend / += from an iterable that yields vs[0..k) and raises when asked
+                                                 for the next item (k ≥ len: it just ends); answer `raised d…` (the
+                                                 deliveries made before the exception came out) or as lextend / liadd
       subs | get n                               (vs: comma separated ints, `-` = empty)
   scenario comp owner.name.kind,… h:c.c,…       C17 machine; kind ∈ obs|comp; handler programs (`-` = none)
       define c o n TREE | assign o n v | read c | observe o n h | unobserve o n h | drop h
@@ -104,6 +108,20 @@ def parseSigOp (s : St) : List String → Option Op
       | "lclear", [] => pure (.lclear n)
       | _, _ => none
   | _ => none
+
+/-- `lextendsrc n vs k` / `liaddsrc n vs k` -/
+def parseSrcOp (s : St) : List String → Option (Bool × Nat × List Int × Nat)
+  | [op, n, vs, k] => do
+      let iadd ← (if op = "lextendsrc" then some false else if op = "liaddsrc" then some true else none)
+      let n ← n.toNat?
+      if kindOf s n ≠ some .lst then none
+      pure (iadd, n, ← parseInts vs, ← k.toNat?)
+  | _ => none
+
+def fmtSrcOut (o : Out) (raised : Bool) : String :=
+  match o, raised with
+  | .ok ds, true => " ".intercalate ("raised" :: ds.map fmtDeliv)
+  | o, _ => fmtOut o
 
 def parseAct (s : String) : Option Act :=
   match s.splitOn "." with
@@ -299,6 +317,11 @@ def stepLine (m : Mach) (ws : List String) : Mach × String :=
           | _ => (m, "bad-op")
         | none => (m, "bad-op")
       | _ =>
+        match parseSrcOp s ws with
+        | some (iadd, n, vs, k) =>
+          let res := stepSrcR (progOf progs) s iadd n vs k
+          (.sig res.1 progs, fmtSrcOut res.2.1 res.2.2)
+        | none =>
         match parseSigOp s ws with
         | none => (m, "bad-op")
         | some op => let (s', o) := stepR (progOf progs) s op; (.sig s' progs, fmtOut o)
